@@ -9,7 +9,7 @@ package wmpt
 // that verifies for some block number, yields the trusted root, and a value other than the true
 // owner's. Failure lines carry the tamper class first, so that known classes can be told apart.
 // property: C10
-// scope: 4 contents (2-7 keys of 32 bytes with shared prefixes, weights 1..7, in memory and after Commit at collapse levels 0/1/2); all block numbers; tamper classes: reweight-on-path-child, reweight-off-path-siblings (move 1..3 units between two children of a branch, sum kept), reweight-short, swap-sibling-hashes, substitute-pair (from the same and from other proofs/tries), drop-pair, duplicate-pair, truncate, bit-flip (every byte, one bit)
+// scope: 4 contents (2-7 keys of 32 bytes with shared prefixes, weights 1..7, in memory and after Commit at collapse levels 0/1/2); all block numbers; tamper classes: reweight-on-path-child, reweight-off-path-siblings (move 1..3 units between two children of a branch, sum kept), reweight-on-path-child-and-its-short-node-claim, reweight-short, swap-sibling-hashes, substitute-pair (from the same and from other proofs/tries), drop-pair, duplicate-pair, truncate, bit-flip (every byte, one bit)
 
 import (
 	"bytes"
@@ -241,6 +241,19 @@ func TestGocvBoundedC10(t *testing.T) {
 										class = "reweight-on-path-child"
 									}
 									try(class, hp, with(nr), fmt.Sprintf("proof element %d (branch): %d units of claimed weight moved from child %x to child %x", pi, d, i, j))
+									// the same, made consistent one level down: if the next element is a short node, its own
+									// claim of the weight below it is rewritten to what the branch now claims for that child
+									if (i == onPath || j == onPath) && pi+1 < len(hp.pairs) {
+										nx := PersistNodeBase{}
+										if err := cbor.Unmarshal(hp.pairs[pi+1], &nx); err == nil && nx.Short != nil && len(nx.Short.Value) == hashWithWeightLength {
+											ns := PersistNodeBase{Short: &PersistNodeShort{Key: nx.Short.Key, Hash: nx.Short.Hash, Value: append([]byte{}, nx.Short.Value...)}}
+											copy(ns.Short.Value[32:], nb.Branch.Children[onPath][32:40])
+											nsr, _ := cbor.Marshal(&ns)
+											both := with(nr)
+											both[pi+1] = nsr
+											try("reweight-on-path-child-and-its-short-node-claim", hp, both, fmt.Sprintf("proof elements %d (branch) and %d (short node): %d units of claimed weight moved from child %x to child %x, the short node's own claim adjusted to match", pi, pi+1, d, i, j))
+										}
+									}
 								}
 							}
 						}
